@@ -93,6 +93,30 @@ STMT_CORES = {
     "generic_unary_via_variable": ("vu := __lit1\nr := gu(vu)", "gu :: fn x ->\n    __un1(x)\nend\n", spec_unary),
     "tuple_elementwise": ("r := __op1(__lit1, __lit2)", "", spec_binop),
 }
+# ---- blobs are unified structurally: two blob values whose field sets (names and types) differ never unify, in either order
+BLOB_DECLS = "Sm :: blob {\n    x: int,\n}\nBg :: blob {\n    x: int,\n    y: int,\n}\nOt :: blob {\n    x: int,\n}\nDf :: blob {\n    x: str,\n}\n"
+BLOB_VALS = 'Sm { x: 1 }, Bg { x: 1, y: 2 }, Ot { x: 3 }, Df { x: "s" }'
+BLOB_FIELDS = [{"x": "int"}, {"x": "int", "y": "int"}, {"x": "int"}, {"x": "str"}]
+def spec_blob_pair(S, I, left=None):
+    bad = []
+    for i, fi in enumerate(BLOB_FIELDS):
+        for j, fj in enumerate(BLOB_FIELDS):
+            if fi != fj:
+                if left is None: bad.append(z3.And(I("ealt1", i), I("ealt2", j)))
+                elif i == left: bad.append(I("ealt1", j))
+    return z3.Or(bad)
+STMT_CORES.update({
+    "blob_if_else_branches": ("r := if 1 < 2 do __ealt1(%s) else __ealt2(%s) end" % (BLOB_VALS, BLOB_VALS), BLOB_DECLS, spec_blob_pair),
+    "blob_if_else_via_variables": ("ba := __ealt1(%s)\nbb := __ealt2(%s)\nr := if 1 < 2 do ba else bb end" % (BLOB_VALS, BLOB_VALS), BLOB_DECLS, spec_blob_pair),
+    "blob_reassign": ("bw := __ealt1(%s)\nbw = __ealt2(%s)" % (BLOB_VALS, BLOB_VALS), BLOB_DECLS, spec_blob_pair),
+    "blob_list_elements": ("bl := [__ealt1(%s), __ealt2(%s)]" % (BLOB_VALS, BLOB_VALS), BLOB_DECLS, spec_blob_pair),
+    "blob_equality": ("be := __ealt1(%s) == __ealt2(%s)" % (BLOB_VALS, BLOB_VALS), BLOB_DECLS, spec_blob_pair),
+    "blob_declared_small": ("bz: Sm = __ealt1(%s)" % BLOB_VALS, BLOB_DECLS, lambda S, I: spec_blob_pair(S, I, left=0)),
+    "blob_declared_big": ("bz: Bg = __ealt1(%s)" % BLOB_VALS, BLOB_DECLS, lambda S, I: spec_blob_pair(S, I, left=1)),
+    "blob_param_big": ("bp :: fn a: Bg do\n    pr(a.y)\nend\nbp(__ealt1(%s))" % BLOB_VALS, BLOB_DECLS, lambda S, I: spec_blob_pair(S, I, left=1)),
+    "blob_param_small": ("bp :: fn a: Sm do\n    pr(a.x)\nend\nbp(__ealt1(%s))" % BLOB_VALS, BLOB_DECLS, lambda S, I: spec_blob_pair(S, I, left=0)),
+    "blob_return_declared": ("bf :: fn -> Sm do\n    ret __ealt1(%s)\nend" % BLOB_VALS, BLOB_DECLS, lambda S, I: spec_blob_pair(S, I, left=0)),
+})
 GENERIC_LITS = {"generic_binop_args": ["int", "str", "bool", "float"], "generic_binop_via_variables": ["int", "str", "bool"], "tuple_elementwise": ["tuple", "tuple_str", "int"]}
 
 
